@@ -220,6 +220,57 @@ def oracle(ck: Check, tier, deep=False):
                                  f"second application changes the result by {np.abs(S2 - S).max():.3g}")
 
 
+def oracle_dtypes_reorient(ck: Check, tier):
+    """'all real images': integer images (camera frames) are averaged as their values — sums must not wrap around;
+    reorient=False: the quadrants come back un-flipped without symmetrisation, and every form of a symmetry request is refused
+    (never an average of un-mirrored quadrants)"""
+    from abel.tools.symmetry import get_image_quadrants, put_image_quadrants
+    rng = np.random.default_rng(seed() + 666)
+    for _ in range(60 if tier == "quick" else 600):
+        r, c = (int(v) for v in rng.integers(2, 9, size=2))
+        dt = [np.uint8, np.int8, np.uint16, np.int16, np.int32, np.float32][int(rng.integers(0, 6))]
+        info = np.iinfo(dt) if np.issubdtype(dt, np.integer) else None
+        im = rng.integers(info.min, info.max, size=(r, c), endpoint=True).astype(dt) if info is not None else rng.normal(size=(r, c)).astype(dt)
+        (axname, axis, code) = AXES[int(rng.integers(0, len(AXES)))]
+        mask = (True,) * 4
+        ck.count(("S.dtype", np.dtype(dt).name, axname), suite="S.oracle")
+        rep = dict(shape=[r, c], dtype=np.dtype(dt).name, symmetry_axis=repr(axis), image=im.tolist())
+        sig = dict(site="get_image_quadrants", method="average", axis_form=axname)
+        try:
+            _, S = _impl_sym(im, axis, mask, "average")
+        except Exception as e:
+            ck.violation(dict(sig, clause="exception"), rep, f"unexpected {type(e).__name__}: {e}")
+            continue
+        ref = ref_symmetrise(im.astype(np.float64), code, mask) if code else im.astype(np.float64)
+        tol = 1e-6 * max(1.0, np.abs(ref).max()) if dt is np.float32 else 1e-12 * max(1.0, np.abs(ref).max())
+        if np.shape(S) != ref.shape or np.abs(np.asarray(S, float) - ref).max() > tol:
+            ck.violation(dict(sig, clause="mean-integer-image"), rep,
+                         f"{np.dtype(dt).name} image: result is not the mean of the image and its mirror image(s) "
+                         f"(off by {np.abs(np.asarray(S, float) - ref).max() if np.shape(S) == ref.shape else 'shape'})")
+    for (r, c) in [(2, 2), (3, 4), (4, 3), (5, 5), (6, 7)]:
+        im = rng.normal(size=(r, c))
+        nr, nc = r // 2 + r % 2, c // 2 + c % 2
+        for (axname, axis, code) in AXES:
+            ck.count(("S.reorient", r % 2, c % 2, axname), suite="S.oracle")
+            rep = dict(shape=[r, c], symmetry_axis=repr(axis), reorient=False, image=im.tolist())
+            sig = dict(site="get_image_quadrants", method="average", axis_form=axname)
+            try:
+                Q = get_image_quadrants(im, reorient=False, symmetry_axis=axis)
+                raised = False
+            except ValueError:
+                raised = True
+            except Exception as e:
+                ck.violation(dict(sig, clause="exception"), rep, f"unexpected {type(e).__name__}: {e}")
+                continue
+            if code:
+                if not raised:
+                    ck.violation(dict(sig, clause="reorient-false-symmetry"), rep,
+                                 "reorient=False with a symmetry request returned an average of un-mirrored quadrants instead of refusing")
+            elif raised or not (np.array_equal(Q[0], im[:nr, -nc:]) and np.array_equal(Q[1], im[:nr, :nc])
+                                and np.array_equal(Q[2], im[-nr:, :nc]) and np.array_equal(Q[3], im[-nr:, -nc:])):
+                ck.violation(dict(sig, clause="reorient-false-split"), rep, "reorient=False, no symmetry: quadrants are not the un-flipped corner blocks")
+
+
 def oracle_transform(ck: Check, tier):
     """the same rejection / finiteness contract where users meet it: abel.Transform(symmetry_axis=…, use_quadrants=…)"""
     import abel
@@ -271,6 +322,7 @@ def run(tier):
     else:
         correspondence(ck, tier)
     oracle_transform(ck, tier)
+    oracle_dtypes_reorient(ck, tier)
     oracle(ck, tier, deep=bool(ck.broken) or tier == "thorough")
     return ck.finish()
 
